@@ -9,13 +9,15 @@ import GormModel.Lemmas.SchemaCacheStep
 namespace Gorm.SchemaCache
 
 theorem inv_init (c : Cfg) (progs : List (List Nat)) : Inv c (init progs) := by
-  refine ⟨Nat.le_refl _, ?_, ?_, ?_, ?_, ?_, ?_⟩
+  refine ⟨Nat.le_refl _, ?_, ?_, ?_, ?_, ?_, ?_, ?_, ?_⟩
   · intro o ho; exact absurd ho (Nat.not_lt_zero _)
   · intro ty o ho; cases ho
   · intro o ho; exact absurd ho (Nat.not_lt_zero _)
-  · intro t; exact ⟨trivial, (by intro f hf; cases hf), fun _ => rfl⟩
+  · intro t; exact ⟨trivial, (by intro f hf; cases hf), fun _ => rfl, fun _ => rfl⟩
   · intro o ho; exact absurd ho (Nat.not_lt_zero _)
   · intro r hr; cases hr
+  · intro g hg; cases hg
+  · intro _ o; rfl
 
 theorem inv_run (c : Cfg) : ∀ (sched : List Nat) (s : State), Inv c s → Inv c (run c s sched)
   | [], _, h => h
@@ -138,5 +140,28 @@ theorem deadlock_free (c : Cfg) (progs : List (List Nat)) (sched : List Nat) :
   rcases step_none (hall t) with ⟨h1, h2⟩ | ⟨ty, o, obj, h1, h2⟩
   · simp [doneT, h1, h2] at ht
   · exact no_blocked hI hall _ t ty o obj h1 h2 (Nat.le_refl _)
+
+/-! ### getOrParse cache hits (`gets` log) and back references
+
+`OnlySelfRels` (defined in Lemmas.SchemaCacheInv):
+  `def OnlySelfRels (c : Cfg) : Prop := ∀ ty, ∀ r ∈ relsOf c ty, r.target = ty` -/
+
+theorem gets_own_partial (c : Cfg) (h : OnlySelfRels c) (progs : List (List Nat)) (sched : List Nat) :
+    ∀ g ∈ (run c (init progs) sched).gets, ((run c (init progs) sched).objs g.obj).ownT = g.tid := by
+  intro g hg
+  exact ((inv_reach c progs sched).gets g hg).own h
+
+theorem backs_nil_partial (c : Cfg) (h : OnlySelfRels c) (progs : List (List Nat)) (sched : List Nat) :
+    ∀ o, ((run c (init progs) sched).objs o).backs = [] :=
+  (inv_reach c progs sched).backs h
+
+/-- without the hypothesis: whatever getOrParse hands out was at least published (stamped) and has the requested type -/
+theorem gets_published (c : Cfg) (progs : List (List Nat)) (sched : List Nat) :
+    ∀ g ∈ (run c (init progs) sched).gets,
+      ((run c (init progs) sched).objs g.obj).stamp ≠ 0 ∧
+      ∃ r, (relsOf c g.ty)[g.k]? = some r ∧ ((run c (init progs) sched).objs g.obj).ty = r.target := by
+  intro g hg
+  have h := (inv_reach c progs sched).gets g hg
+  exact ⟨h.stamped, h.ty⟩
 
 end Gorm.SchemaCache
